@@ -112,6 +112,8 @@ func raceKey(stderr string) []string {
 	return out
 }
 
+var raceHangs int
+
 func (raceStream) Execute(c Case) {
 	obs := map[string]any{"race": false, "hang": false, "mixture": false, "crash": false}
 	c["obs"] = obs
@@ -120,8 +122,14 @@ func (raceStream) Execute(c Case) {
 		skip("race-detector build of the harness missing")
 		return
 	}
+	if raceHangs >= 2 {
+		// two runs already hung: the verdict is in, do not spend a deadline on every remaining case
+		skip("skipped after two hangs")
+		obs["skipped"] = true
+		return
+	}
 	args, _ := json.Marshal(c)
-	ctx, cancel := context.WithTimeout(context.Background(), 120*time.Second)
+	ctx, cancel := context.WithTimeout(context.Background(), 45*time.Second)
 	defer cancel()
 	cmd := exec.CommandContext(ctx, bin, "child", "racer", string(args))
 	cmd.Env = append(os.Environ(), "GORACE=halt_on_error=1 exitcode=66")
@@ -129,6 +137,9 @@ func (raceStream) Execute(c Case) {
 	cmd.Stdout, cmd.Stderr = &stdout, &stderr
 	err := cmd.Run()
 	se := stderr.String()
+	if ctx.Err() != nil || strings.Contains(se, "watchdog: hang") || strings.Contains(se, "all goroutines are asleep") {
+		raceHangs++
+	}
 	switch {
 	case ctx.Err() != nil:
 		obs["hang"] = true
@@ -264,7 +275,7 @@ func childRacer(args []string) int {
 	go func() {
 		select {
 		case <-done:
-		case <-time.After(90 * time.Second):
+		case <-time.After(30 * time.Second):
 			fmt.Fprintln(os.Stderr, "watchdog: hang")
 			os.Exit(3)
 		}
